@@ -41,6 +41,7 @@ def run(ctx):
                 seen_known.add(f["key"])
                 ctx.known_finding("%s (e.g. Settle(%s) of %s)" % (f["what"], c["desc"].get("rule"), c["desc"].get("P")))
             continue
+        _bo.dump_bad(ctx, c, kind, detail)
         if reported < 3:
             ctx.violation(_bo.describe(ctx, c, kind, detail, "settle"), "%s: Settle(rule %s) of %s" % (kind, c["desc"].get("rule"), c["desc"].get("P")))
         reported += 1
